@@ -1,6 +1,8 @@
 import MosnVerif.Lemmas.DownstreamProps
 import MosnVerif.Lemmas.TcpLedger
 import MosnVerif.Gen.ResourceSites
+import MosnVerif.Lemmas.PoolMuxSpec
+import MosnVerif.Lemmas.PoolH2Steps
 /-!
 # C10 — circuit-breaker and active-gauge accounting is conserved (property theorems only)
 
@@ -323,5 +325,114 @@ theorem breaker_sites_table :
     escapes = ["pkg/upstream/cluster/cluster_manager.go:UpdateClusterResourceManagerHandler: newSnap.ClusterInfo().ResourceManager()",
                "pkg/upstream/cluster/cluster_manager.go:UpdateClusterResourceManagerHandler: oldSnap.ClusterInfo().ResourceManager()"] := by
   decide
+
+
+/-!
+## The real pools' side of the ledger: one-way requests on the multiplex pool, the HTTP/2 pool's connection gauges
+
+The downstream machine above replays the pools' admission (`Increase` on NewStream, `Decrease` on stream destroy).  What
+the real pools do is modelled in `Model/PoolMux.lean` / `Model/PoolH2.lean` (property C09) with every counter movement
+regenerated (`Gen.PoolMuxMoves`, `Gen.PoolH2`); the theorems below are the conservation statements of C10 about those
+machines, for every operation list and every `max_requests`.
+-/
+section Pools
+open MosnVerif.Model
+
+theorem poolCanCreate_iff (m : Nat) (n : Int) (hn : 0 ≤ n) : Gen.Pool.canCreate (m : Int) n = true ↔ (m = 0 ∨ n < m) := by
+  unfold Gen.Pool.canCreate
+  by_cases hm : m = 0
+  · simp [hm]
+  · have : ¬ ((m : Int) = 0) := by omega
+    have h2 : ¬ (n < 0) := by omega
+    simp [hm, this, h2]
+
+/-- **multiplex pool, exact accounting with one-way requests**: after ANY list of operations — one-way requests
+(`NewStream(ctx, nil)`) among them — `Requests().Cur()` is what the other pools hold plus the requests in flight that
+have a receiver (nothing when unlimited), both upstream `request_active` gauges are the number of those requests; with
+none in flight everything is back at the ambient load / zero; and `max_requests` trips exactly at its threshold.  A
+one-way request is never "in flight" in this sense: nothing ends it, so it must hold nothing. -/
+theorem mux_ledger_exact (maxConn maxReq : Nat) (ops : List PoolMux.Op) :
+    let s := PoolMux.run (PoolMux.init maxConn maxReq) ops
+    s.reqCur = (if s.maxReq = 0 then 0 else (s.ext : Int) + (s.liveCount : Int)) ∧ 0 ≤ s.reqCur ∧
+    s.actHost = (s.liveCount : Int) ∧ s.actCluster = (s.liveCount : Int) ∧
+    (s.liveCount = 0 → s.reqCur = (if s.maxReq = 0 then 0 else (s.ext : Int)) ∧ s.actHost = 0 ∧ s.actCluster = 0) ∧
+    (Gen.Pool.canCreate s.maxReq s.reqCur = true ↔ (s.maxReq = 0 ∨ s.reqCur < s.maxReq)) := by
+  intro s
+  have h : PoolMux.Inv s := PoolMux.inv_run _ (PoolMux.inv_init maxConn maxReq) ops
+  have hnn : 0 ≤ s.reqCur := by rw [h.core.req]; split <;> omega
+  refine ⟨h.core.req, hnn, h.core.act.1, h.core.act.2, ?_, poolCanCreate_iff _ _ hnn⟩
+  intro h0
+  refine ⟨by rw [h.core.req, h0]; simp, by rw [h.core.act.1, h0]; rfl, by rw [h.core.act.2, h0]; rfl⟩
+
+/-- **a one-way request takes nothing**: `NewStream(ctx, nil)` — admitted or refused, in any reachable state — moves no
+counter (it leaves the whole state as it was); so after any number of one-way requests the breaker answers the next
+request as before.  Proved from the regenerated `receiver == nil` path of `poolMultiplex.NewStream`. -/
+theorem mux_oneway_takes_nothing (maxConn maxReq : Nat) (ops : List PoolMux.Op) (k n : Nat) :
+    let s := PoolMux.run (PoolMux.init maxConn maxReq) ops
+    let s' := PoolMux.run s (List.replicate n (.newStreamOneway k))
+    s'.reqCur = s.reqCur ∧ s'.actHost = s.actHost ∧ s'.actCluster = s.actCluster ∧
+    Gen.Pool.canCreate s'.maxReq s'.reqCur = Gen.Pool.canCreate s.maxReq s.reqCur := by
+  intro s s'
+  have : s' = s := by
+    show PoolMux.run s (List.replicate n (.newStreamOneway k)) = s
+    induction n with
+    | zero => rfl
+    | succ n ih =>
+      show PoolMux.run (PoolMux.step s (.newStreamOneway k)).1 _ = s
+      rw [show (PoolMux.step s (.newStreamOneway k)).1 = s from PoolMux.newStreamOneway_state s k]; exact ih
+  rw [this]; exact ⟨rfl, rfl, rfl, rfl⟩
+
+/-- **HTTP/2 pool, exact accounting**: after any list of operations {NewStream (dial ok / refused / timed out), response,
+local reset, RST_STREAM, graceful GOAWAY on a given connection, close of a given connection by either side, Shutdown,
+Close, ambient load} both upstream `connection_active` gauges are 1 when the pool holds a client and 0 otherwise — every
+dial that succeeded was given back exactly once, by the `NewStream` that replaced a client told to go away or by the
+close of the client the pool still held, never by both and never for a connection other than the one that closed —;
+the request counters count the requests in flight; once every connection is closed every gauge is 0 and the breaker is
+back at the ambient load. -/
+theorem h2_ledger_exact (maxReq : Nat) (ops : List PoolH2.Op) :
+    let s := PoolH2.run (PoolH2.init maxReq) ops
+    s.connHost = (if s.active.isSome then 1 else 0) ∧ s.connCluster = (if s.active.isSome then 1 else 0) ∧
+    0 ≤ s.connHost ∧ 0 ≤ s.connCluster ∧
+    s.reqCur = (if s.maxReq = 0 then 0 else (s.ext : Int) + (s.liveCount : Int)) ∧ 0 ≤ s.reqCur ∧
+    s.actHost = (s.liveCount : Int) ∧ s.actCluster = (s.liveCount : Int) ∧
+    ((∀ c, c < s.nConns → (s.conn c).netOpen = false) →
+      s.connHost = 0 ∧ s.connCluster = 0 ∧ s.actHost = 0 ∧ s.actCluster = 0 ∧
+      s.reqCur = (if s.maxReq = 0 then 0 else (s.ext : Int))) ∧
+    (Gen.Pool.canCreate s.maxReq s.reqCur = true ↔ (s.maxReq = 0 ∨ s.reqCur < s.maxReq)) := by
+  intro s
+  have h : PoolH2.Inv s := PoolH2.inv_run _ (PoolH2.inv_init maxReq) ops
+  have hnn : 0 ≤ s.reqCur := by rw [h.req]; split <;> omega
+  have hg := h.gauge
+  simp only [PoolH2.gaugeOf] at hg
+  refine ⟨hg.1, hg.2, by rw [hg.1]; split <;> omega, by rw [hg.2]; split <;> omega, h.req, hnn, h.act.1, h.act.2, ?_,
+    poolCanCreate_iff _ _ hnn⟩
+  intro hall
+  have hact : s.active = none := by
+    cases ha : s.active with
+    | none => rfl
+    | some a =>
+      have ⟨h1, h2⟩ := h.activeOk a ha
+      rw [hall a h1] at h2; cases h2
+  have hlive : s.liveCount = 0 := by
+    apply PoolH2.countLive_zero
+    intro i hi
+    cases hl : (s.stream i).live
+    · rfl
+    · have ⟨h1, h2⟩ := h.liveOk i hi hl
+      rw [hall _ h1] at h2; cases h2
+  simp only [hact, Option.isSome_none, Bool.false_eq_true, if_false] at hg
+  refine ⟨hg.1, hg.2, by rw [h.act.1, hlive]; rfl, by rw [h.act.2, hlive]; rfl, by rw [h.req, hlive]; simp⟩
+
+-- non-vacuity: with max_requests = 2, two one-way requests and then two ordinary ones are all admitted, the third ordinary
+-- one overflows (with the one-way path counted like the ordinary one the FIRST ordinary request would already be the last)
+example : ((PoolMux.trace (PoolMux.init 1 2) [.checkAndInit (some 0) .ok, .newStreamOneway 0, .newStreamOneway 0,
+      .newStream 0, .newStream 0, .newStream 0]).map (fun x => (x.1, x.2.reqCur, x.2.actCluster))) =
+    [(.ready false, 0, 0), (.ok 0, 0, 0), (.ok 0, 0, 0), (.ok 0, 1, 1), (.ok 0, 2, 2), (.overflow, 2, 2)] := by decide
+-- HTTP/2: GOAWAY, replacement, both connections closed: every gauge is back at 0 (hypothesis of the idle clause met)
+example : ((fun (s : PoolH2.State) => (s.connHost, s.connCluster, s.actHost, s.reqCur, (s.conn 0).netOpen, (s.conn 1).netOpen))
+    (PoolH2.run (PoolH2.init 2) [.newStream .ok, .goAway 0, .newStream .ok, .connClose 0 true, .connClose 1 false])) =
+    (0, 0, 0, 0, false, false) := by decide
+
+end Pools
 
 end MosnVerif.Props.C10
